@@ -226,6 +226,7 @@ func (sc *Scheduler) Schedule(ctx context.Context, g *ExecutionGraph, done chan 
 						if execErr == nil || node.data.Step.ContinueOn.Failure {
 							if !sc.isCanceled() {
 								time.Sleep(node.data.Step.RepeatPolicy.Interval)
+								verifPoint("worker.repeatwake", node)
 								continue ExecRepeat
 							}
 						}
